@@ -333,6 +333,20 @@ def validate_result(ctx, R, sel, m, index, must, may, sig, det, src_vals, deep):
             c03.check_grid(Prefix(ctx, "derived_on_result", psig), R, rings, n_node, int(det.get("order", 0)) % len(c03.ORDERS), {})
     except Exception as e:
         ctx.check("derived_on_result", False, dict(psig, table="validator", exc=core.exc_sig(e)), dict(det, exc=repr(e)[:300]))
+    # the result's own edge distances: zero on ITS boundary edges, the distance between ITS face centres elsewhere (C16 on the result)
+    try:
+        with warnings.catch_warnings():
+            warnings.simplefilter("ignore")
+            ef_ = np.asarray(R.edge_face_connectivity.values)
+            efd_ = np.asarray(R.edge_face_distances.values, dtype=float)
+            C_ = ref.lonlat_to_xyz(np.asarray(R.face_lon.values, float), np.asarray(R.face_lat.values, float))
+        inner_ = ef_[:, 1] != ux.INT_FILL
+        want_ = np.zeros(len(ef_))
+        want_[inner_] = ref.angle(C_[ef_[inner_, 0]], C_[ef_[inner_, 1]])
+        ctx.check("derived_on_result", efd_.shape == want_.shape and bool(np.all(np.abs(efd_ - want_) <= np.maximum(1e-13, 1e-12 * want_))), dict(psig, table="edge_face_distances"),
+                  dict(det, nonzero_on_boundary=int(np.sum(efd_[~inner_] != 0)) if efd_.shape == want_.shape else None))
+    except Exception as e:
+        ctx.check("derived_on_result", False, dict(psig, table="edge_face_distances", exc=core.exc_sig(e)), dict(det, exc=repr(e)[:300]))
     # geometric quantities agree with the source restricted to the selection
     for name in ("face_lon", "face_lat", "face_x", "face_areas", "n_nodes_per_face", "edge_node_distances", "edge_lon", "node_x", "bounds"):
         if name == "bounds" and (len(mapping) > 40 or int(det.get("order", 0)) % 3):
